@@ -38,6 +38,7 @@ def dispatch (l : Line) : List Verdict :=
   | "ssocookie" => handleSsoCookie l
   | "cb" => handleCb l
   | "cbrace" => handleCbRace l
+  | "cbburst" => handleCbBurst l
   | "idtok" => handleIdTok l
   | "idtokburst" => handleIdTokBurst l
   | "login13" => handleLogin13 l
